@@ -26,7 +26,8 @@ PID = 'C16'
 ENC_KEY = '5a' * 16 + 'c3' * 16
 ENC_PASSWORD = 'c16 database field password'
 LISTED = [('key', ['encrypt', 'public', 'encrypt']), ('key', ['wif', 'encrypt', 'public']), ('hdkey', ['encrypt', 'public', 'as_dict_priv']),
-          ('hdkey', ['info', 'encrypt', 'public'])]
+          ('hdkey', ['info', 'encrypt', 'public'])] + \
+         [('hdkey', pre + ['public_path', 'info', 'as_dict_priv']) for pre in ([], ['wif', 'wif_private']) for _ in range(6)]
 
 
 def generate_histories(thorough, seed):
@@ -35,14 +36,14 @@ def generate_histories(thorough, seed):
     if rc != 0 or not hs:
         raise MachineryError('generation of call histories failed:\n' + out[-3000:])
     rc, out = common.run_tlc('LeakGen', 'LeakGen_sim.cfg', workers=1, timeout=1200,
-                             extra=['-simulate', 'num=%d' % (4000 if thorough else 300), '-depth', '8', '-seed', str(seed % 2 ** 31)])
+                             extra=['-simulate', 'num=%d' % (4000 if thorough else 250), '-depth', '8', '-seed', str(seed % 2 ** 31)])
     sim = common.tlc_printed(out, 'HIST')
     if not sim:
         raise MachineryError('simulation of long call histories failed:\n' + out[-3000:])
     uniq = {}
     for h in sim:
         uniq[(h['start'], tuple(h['hist']))] = h
-    return hs, list(uniq.values())[:(4000 if thorough else 300)]
+    return hs, list(uniq.values())[:(4000 if thorough else 250)]
 
 
 def describe_key(res):
@@ -94,11 +95,11 @@ def run(replay=None):
         ck.notes['simulated_histories'] = len(sim)
         for n, h in enumerate(hs + sim + [{'start': a, 'hist': b} for a, b in LISTED]):
             key_jobs.append((h['start'], h['hist'], seed * 1000003 + n))       # one seeded instantiation per history
-        # every creation route (quick: once, the first four twice), seeded witness type and calls
-        nw = 14 * len(c16_drv.WALLET_KINDS) if thorough else len(c16_drv.WALLET_KINDS) + 4
+        # every creation route (quick: once each), seeded witness type and calls
+        nw = 8 * len(c16_drv.WALLET_KINDS) if thorough else len(c16_drv.WALLET_KINDS)
         for i in range(nw):
-            wallet_jobs.append((seed % 100000 * 1000 + i, list(c16_drv.WALLET_KINDS[i % len(c16_drv.WALLET_KINDS)]),
-                                c16_drv.gen_wallet_history(rng, rng.randrange(3, 7))))
+            wk = list(c16_drv.WALLET_KINDS[i % len(c16_drv.WALLET_KINDS)])
+            wallet_jobs.append((seed % 100000 * 1000 + i, wk, c16_drv.gen_wallet_history(rng, rng.randrange(3, 7), wk[0])))
         nd = 12 if thorough else 3
         for i in range(nd):
             for mode in ('key', 'password'):
